@@ -288,7 +288,7 @@ func enum(g Generator, spec *compile.EnumSpec) error {
 				switch int32(<$v>) {
 				<range .UniqueItems ->
 					case <.Value>:
-						return ([]byte)("\"<enumItemLabelName .>\""), nil
+						return ([]byte)("<enumItemLabelJSON .>"), nil
 				<end ->
 				}
 			<end ->
@@ -347,7 +347,8 @@ func enum(g Generator, spec *compile.EnumSpec) error {
 			Spec:        spec,
 			UniqueItems: items,
 		},
-		TemplateFunc("enumItemLabelName", entityLabel),
+		TemplateFunc("enumItemLabelName", quotedLabel),
+		TemplateFunc("enumItemLabelJSON", quotedJSONLabel),
 		TemplateFunc("checkNoZap", checkNoZap),
 		TemplateFunc("checkEnumTextMarshalStrict", checkEnumTextMarshalStrict),
 	)
